@@ -10,6 +10,7 @@ import (
 	"math/rand"
 	"strconv"
 	"strings"
+	"time"
 
 	"github.com/oklog/ulid/v2"
 	"github.com/prometheus/prometheus/model/labels"
@@ -37,9 +38,18 @@ type item struct {
 	M     *matcher  `json:"m,omitempty"`
 }
 
+type fevent struct {
+	B *int `json:"b,omitempty"` // issue lookup i (GetOrSet of item i in its own goroutine)
+	F *int `json:"f,omitempty"` // let the conversion of lookup i return
+}
+
 type input struct {
 	A item `json:"a"`
 	B item `json:"b"`
+	// flight: concurrent lookups on one LruMatchersCache
+	Kind  string    `json:"kind,omitempty"`
+	Items []matcher `json:"items,omitempty"`
+	Evs   []fevent  `json:"evs,omitempty"`
 }
 
 func coqStrList(name string, xs []string) string {
@@ -105,6 +115,30 @@ func facts(repo string, w io.Writer) error {
 	})
 	fmt.Fprintln(w, "(* pkg/store/cache/matchers_cache.go cacheKey: what is written into the key, in order *)")
 	fmt.Fprint(w, coqStrList("matcherCacheKeyWrites", writes))
+	// GetOrSet: the key of the in-flight de-duplication (singleflight) and the keys of the LRU
+	gos, err := s2.FindFunc("LruMatchersCache.GetOrSet")
+	if err != nil {
+		return err
+	}
+	var keyUses []string
+	ast.Inspect(gos.Body, func(n ast.Node) bool {
+		switch x := n.(type) {
+		case *ast.AssignStmt:
+			if len(x.Lhs) >= 1 && len(x.Rhs) == 1 {
+				if id, ok := x.Lhs[0].(*ast.Ident); ok && id.Name == "key" {
+					keyUses = append(keyUses, "key := "+s2.ExprString(x.Rhs[0]))
+				}
+			}
+		case *ast.CallExpr:
+			f := s2.ExprString(x.Fun)
+			if (f == "c.sf.Do" || f == "c.cache.Get" || f == "c.cache.Add") && len(x.Args) >= 1 {
+				keyUses = append(keyUses, f+"("+s2.ExprString(x.Args[0])+")")
+			}
+		}
+		return true
+	})
+	fmt.Fprintln(w, "(* pkg/store/cache/matchers_cache.go GetOrSet: where the key comes from and what is keyed by it *)")
+	fmt.Fprint(w, coqStrList("getOrSetKeys", keyUses))
 	fmt.Fprintf(w, "Definition compressionSchemeStreamedSnappy : string := %s%%string.\n", common.CoqString(storecache.VerifC13CompressionScheme()))
 	return nil
 }
@@ -203,6 +237,9 @@ func run(raw json.RawMessage) (common.Case, error) {
 		return common.Case{}, err
 	}
 	var c common.Case
+	if in.Kind == "flight" {
+		return runFlight(in)
+	}
 	o := &oracles{h: map[string]string{}, q: map[string]string{}, d: map[uint64]string{}}
 	k1, c1, err := keyOf(in.A, o)
 	if err != nil {
@@ -238,6 +275,134 @@ func run(raw json.RawMessage) (common.Case, error) {
 			c.Sig = "postings-name-colon"
 		}
 	}
+	return c, nil
+}
+
+// runFlight: lookups on one real LruMatchersCache in a forced interleaving. The conversion
+// (newItem) of a lookup signals that it was entered and then parks until the schedule lets it
+// return. The generator never issues a lookup while an EQUAL item is being converted, so with
+// keys that separate different items no lookup ever has to wait for another one.
+func runFlight(in input) (common.Case, error) {
+	var c common.Case
+	cache, err := storecache.NewMatchersCache(storecache.WithSize(100),
+		storecache.WithIsCacheableFunc(func(storecache.ConversionLabelMatcher) bool { return true }))
+	if err != nil {
+		return c, err
+	}
+	n := len(in.Items)
+	type result struct {
+		m   *labels.Matcher
+		err error
+	}
+	entered := make([]chan struct{}, n)
+	release := make([]chan struct{}, n)
+	resCh := make([]chan result, n)
+	state := make([]int, n) // 0 idle, 1 converting, 2 waiting for a call in flight, 3 returned
+	got := make([]*labels.Matcher, n)
+	pbs := make([]storepb.LabelMatcher, n)
+	for i, m := range in.Items {
+		_, pt, _ := mtype(m.T)
+		pbs[i] = storepb.LabelMatcher{Type: pt, Name: m.N, Value: m.V}
+		entered[i], release[i], resCh[i] = make(chan struct{}), make(chan struct{}), make(chan result, 1)
+	}
+	const patience = 1500 * time.Millisecond
+	settle := func(i int) error { // a waiting lookup may have been answered meanwhile
+		if state[i] != 2 {
+			return nil
+		}
+		select {
+		case r := <-resCh[i]:
+			if r.err != nil {
+				return r.err
+			}
+			got[i], state[i] = r.m, 3
+		case <-time.After(patience):
+		}
+		return nil
+	}
+	var codes, evsCoq []string
+	for _, e := range in.Evs {
+		switch {
+		case e.B != nil && *e.B >= 0 && *e.B < n:
+			i := *e.B
+			evsCoq = append(evsCoq, common.App("FBegin", common.Nat(i)))
+			if state[i] == 0 {
+				go func() {
+					m, err := cache.GetOrSet(&pbs[i], func() (*labels.Matcher, error) {
+						close(entered[i])
+						<-release[i]
+						return storepb.MatcherToPromMatcher(pbs[i])
+					})
+					resCh[i] <- result{m, err}
+				}()
+				select {
+				case <-entered[i]:
+					state[i] = 1
+				case r := <-resCh[i]:
+					if r.err != nil {
+						return c, r.err
+					}
+					got[i], state[i] = r.m, 3
+				case <-time.After(patience):
+					state[i] = 2 // neither converting nor answered: attached to a conversion in flight
+				}
+			}
+			codes = append(codes, common.N(uint64(state[i])))
+		case e.F != nil && *e.F >= 0 && *e.F < n:
+			i := *e.F
+			evsCoq = append(evsCoq, common.App("FFinish", common.Nat(i)))
+			if state[i] == 1 {
+				close(release[i])
+				r := <-resCh[i]
+				if r.err != nil {
+					return c, r.err
+				}
+				got[i], state[i] = r.m, 3
+				for j := range state {
+					if err := settle(j); err != nil {
+						return c, err
+					}
+				}
+			}
+			codes = append(codes, common.N(uint64(state[i])))
+		}
+	}
+	// observations are complete; let everything still parked run out
+	var results []string
+	type ob struct {
+		Item     string `json:"item"`
+		State    int    `json:"state"`
+		Returned string `json:"returned,omitempty"`
+	}
+	var obs []ob
+	for i := range in.Items {
+		o := ob{Item: in.Items[i].N + in.Items[i].T + strconv.Quote(in.Items[i].V), State: state[i]}
+		if state[i] == 3 {
+			g := got[i]
+			results = append(results, common.Some(matcherCoq(matcher{T: g.Type.String(), N: g.Name, V: g.Value})))
+			o.Returned = g.Name + g.Type.String() + strconv.Quote(g.Value)
+			if (g.Name != in.Items[i].N || g.Type.String() != in.Items[i].T || g.Value != in.Items[i].V) && c.GoPred == "" {
+				c.GoPred = fmt.Sprintf("lookup %d of %s was answered with the matcher of another item: %s", i, o.Item, o.Returned)
+				c.Sig = "inflight-conflated"
+			}
+		} else {
+			results = append(results, common.None)
+		}
+		obs = append(obs, o)
+	}
+	for i := range state {
+		if state[i] == 1 {
+			close(release[i])
+		}
+	}
+	var itemsCoq []string
+	for _, m := range in.Items {
+		itemsCoq = append(itemsCoq, matcherCoq(m))
+	}
+	c.Coq = common.App("CFlight", common.List(itemsCoq), common.List(evsCoq), common.List(codes), common.List(results))
+	c.Obs = obs
+	c.Class = "flight"
+	c.Nontrivial = n >= 2 && len(evsCoq) >= 3
 	return c, nil
 }
 
@@ -469,8 +634,79 @@ func variant(r *rand.Rand, it item) item {
 	return v
 }
 
+func genFlight(r *rand.Rand) input {
+	in := input{Kind: "flight"}
+	vals := []string{"a.*|b", "x", "b=~c", "1|2", ".+"}
+	names := []string{"job", "instance", "a", "a=~b", "é"}
+	types := []string{"=~", "!~", "=", "!="}
+	n := 2 + r.Intn(3)
+	v := vals[r.Intn(len(vals))]
+	seen := map[string]bool{}
+	for len(in.Items) < n {
+		m := matcher{T: types[r.Intn(len(types))], N: names[r.Intn(len(names))], V: v}
+		if r.Intn(4) == 0 {
+			m.V = vals[r.Intn(len(vals))]
+		}
+		k := m.N + "\x00" + m.T + "\x00" + m.V
+		if seen[k] && r.Intn(3) != 0 {
+			continue
+		}
+		seen[k] = true
+		in.Items = append(in.Items, m)
+	}
+	// a random schedule of begins and finishes; a lookup is not issued while an equal item is being converted
+	ip := func(v int) *int { return &v }
+	state := make([]int, n) // 0 idle 1 converting 3 done
+	key := func(i int) string { return in.Items[i].N + "\x00" + in.Items[i].T + "\x00" + in.Items[i].V }
+	for step := 0; step < 3*n; step++ {
+		var cand []fevent
+		for i := 0; i < n; i++ {
+			switch state[i] {
+			case 0:
+				busy := false
+				for j := 0; j < n; j++ {
+					if state[j] == 1 && key(j) == key(i) {
+						busy = true
+					}
+				}
+				if !busy {
+					cand = append(cand, fevent{B: ip(i)})
+				}
+			case 1:
+				if r.Intn(2) == 0 {
+					cand = append(cand, fevent{F: ip(i)})
+				}
+			}
+		}
+		if len(cand) == 0 {
+			continue
+		}
+		e := cand[r.Intn(len(cand))]
+		in.Evs = append(in.Evs, e)
+		if e.B != nil {
+			done := false
+			for j := 0; j < n; j++ {
+				if state[j] == 3 && key(j) == key(*e.B) {
+					done = true
+				}
+			}
+			if done {
+				state[*e.B] = 3 // cache hit
+			} else {
+				state[*e.B] = 1
+			}
+		} else {
+			state[*e.F] = 3
+		}
+	}
+	return in
+}
+
 func gen(r *rand.Rand, tier string, n int) []any {
 	var out []any
+	for i := 0; i < n/10; i++ {
+		out = append(out, genFlight(r))
+	}
 	kinds := []string{"postings", "postings", "expanded", "expanded", "series", "matcher", "matcher"}
 	for i := 0; i < n; i++ {
 		k := kinds[r.Intn(len(kinds))]
